@@ -515,12 +515,21 @@ func (s *Server) processUpstream(dctx *dnsContext) (rc resultCode) {
 	return resultCodeSuccess
 }
 
+// dnssecEnabled returns true if DNSSEC is enabled in the current settings.  It
+// is safe for concurrent use.
+func (s *Server) dnssecEnabled() (ok bool) {
+	s.serverLock.RLock()
+	defer s.serverLock.RUnlock()
+
+	return s.conf.EnableDNSSEC
+}
+
 // setReqAD changes the request based on the server settings.  wantsDNSSEC is
 // false if the response should be cleared of the AD bit.
 //
 // TODO(a.garipov, e.burkov): This should probably be done in module dnsproxy.
 func (s *Server) setReqAD(req *dns.Msg) (wantsDNSSEC bool) {
-	if !s.conf.EnableDNSSEC {
+	if !s.dnssecEnabled() {
 		return false
 	}
 
@@ -552,7 +561,7 @@ func hasDO(msg *dns.Msg) (do bool) {
 // setRespAD changes the request and response based on the server settings and
 // the original request data.
 func (s *Server) setRespAD(pctx *proxy.DNSContext, reqWantsDNSSEC bool) {
-	if s.conf.EnableDNSSEC && !reqWantsDNSSEC {
+	if s.dnssecEnabled() && !reqWantsDNSSEC {
 		pctx.Req.AuthenticatedData = false
 		pctx.Res.AuthenticatedData = false
 	}
